@@ -53,6 +53,7 @@ _TOTAL_NOTE = ("Trusted: the isolation worker's wall-clock limit (3 s per case, 
 
 FAMILIES["C09"] = dict(
     famtag="C09",
+    files=["spec/cases/C09_edges.ndjson"],
     g=[G("MC_C09", "MC_C09_quick.cfg", "MC_C09_thorough.cfg")],
     v=[dict(profile="mix", n={"quick": 6000, "thorough": 120000}, args=["-nulls"]),
        dict(profile="calls", n={"quick": 2000, "thorough": 40000}, args=["-nulls"])],
@@ -64,6 +65,7 @@ FAMILIES["C09"] = dict(
 )
 FAMILIES["C10"] = dict(
     famtag="C10",
+    files=["spec/cases/C09_edges.ndjson"],
     g=[G("MC_C09", "MC_C09_quick.cfg", "MC_C09_thorough.cfg")],
     v=[dict(profile="mix", n={"quick": 6000, "thorough": 120000}, args=["-nulls"]),
        dict(profile="calls", n={"quick": 2000, "thorough": 40000})],
@@ -186,4 +188,14 @@ FAMILIES["C11"] = dict(
                 "(every escape form, BMP and astral characters raw and escaped, metacharacters, malformed escapes and unpaired surrogates), 420 numerals from the grammar plus edge numerals (17 digits, > 2^53, 1e308/1e309/1e400, subnormal, -0, malformed), containers to depth 3 incl. empty and array-in-array. "
                 "Each text is compiled as an expression and evaluated with EvalBytes by the real code and validated (TraceDenote); seeded random JSON documents written with random escape forms, number spellings, whitespace and malformed neighbours are validated the same way."),
     level_note=_SEM_NOTE + " For numerals outside the exact-rational model (more than 9 significant digits or exponents) the value is compared with encoding/json's decoding of the same text (reference decoder, named by the property itself); strconv/math-big rounding is trusted there.",
+)
+
+
+FAMILIES["C16"] = dict(
+    g=[G("MC_C16", "MC_C16_quick.cfg", "MC_C16_thorough.cfg")],
+    v=[dict(profile="str", n={"quick": 5000, "thorough": 100000})],
+    level_text=("The string functions are TLA+ operators on code-point sequences (JLibStr: Substring, Pad with cycling, Before/After, Trim, Split, Join, Replace, case tables), and UTF-8, base64 and percent-encoding are defined arithmetically, so the inverse laws of the statement "
+                "are theorems that TLC checks on the specification for every enumerated string; TLC enumerates all strings of length <= 2 (3 thorough) over {a , space e-acute euro grin} x start/length/width/limit in -4..4 (-8..8) incl. halves x pad/separator strings of length 0..2(3) "
+                "per function, plus the laws as JSONata equalities; every case is replayed into the real code and validated; seeded strings up to length 40 over a wider alphabet are validated the same way."),
+    level_note=_SEM_NOTE + " Case mapping is an explicit table (ASCII, Latin-1, Greek, Cyrillic); outside it the specification abstains. The escaping convention of $encodeUrlComponent is an open choice (form-encoding or URI-component); only the round trip is fixed by the statement.",
 )
